@@ -153,11 +153,14 @@ func c05(c *orch.Ctx) (*report.Result, error) {
 				add(rr, reqPlan{Class: class})
 			}
 			add(rr, reqPlan{Class: "typical", OmitOptional: true})
+			add(rr, reqPlan{Class: "typical", Decoys: true})
+			add(rr, reqPlan{Class: "typical", OmitOptional: true, Decoys: true})
 			for _, pr := range rr.m.Params {
 				if pr.In == "ctx" {
 					continue
 				}
 				add(rr, reqPlan{Class: "typical", Omit: pr.GoName})
+				add(rr, reqPlan{Class: "typical", Omit: pr.GoName, Decoys: true})
 				add(rr, reqPlan{Class: "typical", IllTyped: pr.GoName})
 				if pr.Validate != "" {
 					add(rr, reqPlan{Class: "typical", Violate: pr.GoName})
